@@ -154,3 +154,6 @@ mod stream_outcome;
 
 #[cfg(feature = "graph_info")]
 mod graph_info;
+
+#[cfg(feature = "verif_hooks")]
+pub mod verif_hooks;
